@@ -808,10 +808,11 @@ def _san(s: str) -> str:
 
 
 class Recorder:
-    def __init__(self, root: Path, crash_at: int | None = None):
+    def __init__(self, root: Path, crash_at: int | None = None, enospc_at: int | None = None):
         self.root = os.path.abspath(str(root))
         self.ops: list[tuple] = []
         self.crash_at = crash_at
+        self.enospc_at = enospc_at        # from this operation on EVERY write fails with ENOSPC (a full disk stays full)
         self.dead = False
         self.failed_renames = 0
         self.fds: dict[int, dict] = {}
@@ -868,6 +869,9 @@ class Recorder:
             at_end = True
         else:
             at_end = _real["lseek"](fd, 0, os.SEEK_CUR) == _real["fstat"](fd).st_size
+        if self.enospc_at is not None and len(self.ops) >= self.enospc_at:
+            import errno
+            raise OSError(errno.ENOSPC, "No space left on device")
         self.step(("w", info["rel"], data) if at_end else ("x", info["rel"]))
         view = memoryview(data)
         done = 0
@@ -1206,6 +1210,12 @@ def build_history(d: Path, case: dict) -> None:
     d.mkdir(parents=True)
     for i, spec in enumerate(case["earlier"]):
         save_json(d / TARGET, f"run-{i}", det_output(spec))
+    if case.get("symlink"):
+        # the results file is a symbolic link (a results directory on scratch storage, linked into the project directory): to a file
+        # holding the earlier runs, or — no earlier runs — dangling
+        if (d / TARGET).exists():
+            (d / TARGET).rename(d / "real-results.json")
+        os.symlink("real-results.json", d / TARGET)
     if case.get("stale_tmp"):
         # leftover of an earlier crashed save: either a short fragment, or (stale_tmp == "long") a partial dump that is
         # LONGER than anything this save will write — a save that does not truncate its temporary keeps its tail
@@ -1213,13 +1223,14 @@ def build_history(d: Path, case: dict) -> None:
         (d / (TARGET + ".tmp")).write_bytes(b'{"stale": garbage' + tail)
 
 
-def crash_run(hist: Path, work: Path, case: dict, k: int | None):
-    """copy the history, run the save with a crash armed after k operations; → (ops, bytes at target, crashed?)"""
+def crash_run(hist: Path, work: Path, case: dict, k: int | None, enospc: int | None = None):
+    """copy the history, run the save with a crash armed after k operations (or, `enospc`: with every write failing with ENOSPC from
+    that operation on); → (ops, bytes at target, crashed?)"""
     from incomplete_cooperative.run.save import save_json
     if work.exists():
         shutil.rmtree(work)
-    shutil.copytree(hist, work)
-    rec = Recorder(work, crash_at=k)
+    shutil.copytree(hist, work, symlinks=True)
+    rec = Recorder(work, crash_at=k, enospc_at=enospc)
     crashed = False
     err = None
     with recording(rec):
@@ -1277,12 +1288,12 @@ def c20_case(res: StreamResult | None, script: Script | None, base: Path, case: 
     build_history(hist, case)
     t = hist / TARGET
     old = t.read_bytes() if t.exists() else None
-    init = {p.name: p.read_bytes() for p in hist.iterdir() if p.is_file()}
+    init = {p.name: p.read_bytes() for p in hist.iterdir() if p.is_file() and not p.is_symlink()}
     old_json = raw_json(old.decode()) if old is not None else {}
     # reference: the unpatched save
     from incomplete_cooperative.run.save import save_json
     ref = base / f"{tag}_ref"
-    shutil.copytree(hist, ref)
+    shutil.copytree(hist, ref, symlinks=True)
     save_json(ref / TARGET, case["name"], det_output(case["new"]))
     ref_new = (ref / TARGET).read_bytes()
     # observation
@@ -1337,7 +1348,30 @@ def c20_case(res: StreamResult | None, script: Script | None, base: Path, case: 
             what = (what + "; " if what else "") + "the results file is gone"
         if what:
             failures.append((what, k, key))
-    if script is not None and not case.get("sparse"):
+    # ---- a disk that fills up: from some write on EVERY write fails with ENOSPC.  Whether save_json raises or returns, the results
+    # file must be the previous one or the complete new one.
+    wr_ops = [k for k, o in enumerate(ops) if o[0] == "w"]
+    for k in sorted({wr_ops[0], wr_ops[len(wr_ops) // 2], wr_ops[-1]}) if wr_ops else []:
+        _ops_e, cur, _crashed, err, _others = crash_run(hist, base / f"{tag}_w", case, None, enospc=k)
+        if res is not None:
+            res.evaluations += 1
+            res.count("disk-full:" + ("raised" if err is not None else "returned"))
+        what = None
+        if not (cur == old or cur == new):
+            what = (f"with the disk full from write operation {k} on (every later write fails with ENOSPC) save_json "
+                    f"{'raised ' + type(err).__name__ if err is not None else 'RETURNED NORMALLY'} and the results file is neither the previous "
+                    f"file nor the complete new file ({'absent' if cur is None else str(len(cur)) + ' bytes'}; previous "
+                    f"{'absent' if old is None else str(len(old)) + ' bytes'}, new {len(new) if new is not None else 'absent'} bytes)")
+            try:
+                j = raw_json(cur.decode()) if cur is not None else {}
+                lost = [n_ for n_ in old_json if n_ not in j]
+                if lost:
+                    what += f"; previously saved runs lost: {lost}"
+            except Exception as e:   # noqa: BLE001
+                what += f"; the results file does not parse ({type(e).__name__})"
+        if what:
+            failures.append((what, k, "save_json:disk-full"))
+    if script is not None and not case.get("sparse") and not case.get("symlink"):
         init_tok = ",".join(f"{_san(n)}={b.hex()}" for n, b in sorted(init.items())) or "-"
         line = f"store crash {TARGET} {init_tok} " + " ".join(op_token(o) for o in ops)
         script.add(line.rstrip(), None, {"case": case, "classes": classes, "ops": [show_op(o) for o in ops], "key": key})
@@ -1392,6 +1426,11 @@ def run_c20(tier, budget: Budget, rnd) -> StreamResult:
             if i % 6 == 5:
                 case["name"] = C20_PATH_NAMES[(i // 6) % len(C20_PATH_NAMES)]
                 res.count("name:path-like")
+            if i % 8 == 6:
+                # data.json is a symbolic link (to a file with the earlier runs; dangling when there are none)
+                case["symlink"], case["stale_tmp"] = True, False
+                case.pop("fs", None)
+                res.count("results-file:symlink")
             if i in C20_SPECIAL_AT.get(tier, {}):
                 # results files far above every buffer size: one earlier run of several MiB (quick) / tens of MiB (thorough), or very
                 # many earlier runs; crash points are sampled (`sparse`), the byte-level oracle runs, the model line is skipped
@@ -1640,7 +1679,8 @@ def replay(prop: str, payload: dict):
         t = hist / TARGET
         old = t.read_bytes() if t.exists() else None
         _, new, _, _, _ = crash_run(hist, base / "w", case, None)
-        ops, cur, crashed, err, _ = crash_run(hist, base / "w", case, k)
+        disk_full = (payload.get("key") or "").endswith("disk-full")
+        ops, cur, crashed, err, _ = crash_run(hist, base / "w", case, None, enospc=k) if disk_full else crash_run(hist, base / "w", case, k)
         ok = cur == old or cur == new
         parses = True
         if cur is not None:
@@ -1650,7 +1690,9 @@ def replay(prop: str, payload: dict):
                 parses = all(n in j for n in oj)
             except Exception:   # noqa: BLE001
                 parses = False
-        msg = (f"save_json interrupted after {k} file-system operations ({' '.join(show_op(o) for o in ops)}): "
+        msg = ((f"save_json with every write failing with ENOSPC from operation {k} on "
+                f"({'raised ' + type(err).__name__ if err is not None else 'returned normally'}): " if disk_full else
+                f"save_json interrupted after {k} file-system operations ({' '.join(show_op(o) for o in ops)}): ") +
                f"file now {'absent' if cur is None else str(len(cur)) + ' bytes'}, previous "
                f"{'absent' if old is None else str(len(old)) + ' bytes'}, complete new {len(new) if new else 0} bytes; "
                f"old-or-new={ok}, parses-and-keeps-earlier-runs={parses}")
